@@ -20,6 +20,7 @@ type ev struct {
 	Op   string
 	P, Q string // real paths
 	Res  string // ok | eio | nat
+	Data []byte // encode: the bytes written (model tokens)
 }
 
 // rec is the recorder of one run.  The root directory base/1 is the model's directory [1].
@@ -35,6 +36,7 @@ type rec struct {
 	alias  map[string]string // real directory name -> model component (junk directories)
 	canon  func(path string, bb []byte) string
 	warns  []error
+	curData []byte // the model token of the representation being encoded
 }
 
 func newRec(base string, faults ...int) *rec {
@@ -124,12 +126,12 @@ func eio(op, p string) error { return &os.PathError{Op: op, Path: p, Err: syscal
 func (r *rec) file1(op, p string, real func() error) error {
 	if r.step() {
 		r.log(op, r.label(p, true), "eio")
-		r.evs = append(r.evs, ev{op, p, p, "eio"})
+		r.evs = append(r.evs, ev{op, p, p, "eio", nil})
 		return eio(op, p)
 	}
 	err := real()
 	r.log(op, r.label(p, true), resOf(op, err))
-	r.evs = append(r.evs, ev{op, p, p, resOf(op, err)})
+	r.evs = append(r.evs, ev{op, p, p, resOf(op, err), nil})
 	return err
 }
 
@@ -137,12 +139,12 @@ func (r *rec) dir1(op, p string, real func() error) error {
 	lab := r.label(p, false) // before the call: removeAll deletes the directory
 	if r.step() {
 		r.log(op, lab, "eio")
-		r.evs = append(r.evs, ev{op, p, p, "eio"})
+		r.evs = append(r.evs, ev{op, p, p, "eio", nil})
 		return eio(op, p)
 	}
 	err := real()
 	r.log(op, lab, resOf(op, err))
-	r.evs = append(r.evs, ev{op, p, p, resOf(op, err)})
+	r.evs = append(r.evs, ev{op, p, p, resOf(op, err), nil})
 	return err
 }
 
@@ -150,18 +152,18 @@ func (r *rec) mkdirTemp(real func(string, string) (string, error)) func(string, 
 	return func(dir, pat string) (string, error) {
 		if r.step() {
 			r.log("mkdirtemp", "t?", "eio")
-			r.evs = append(r.evs, ev{"mkdirtemp", "", dir, "eio"})
+			r.evs = append(r.evs, ev{"mkdirtemp", "", dir, "eio", nil})
 			return "", eio("mkdir", filepath.Join(dir, pat))
 		}
 		d, err := real(dir, pat)
 		if err != nil {
 			r.log("mkdirtemp", "t?", "nat")
-			r.evs = append(r.evs, ev{"mkdirtemp", "", dir, "nat"})
+			r.evs = append(r.evs, ev{"mkdirtemp", "", dir, "nat", nil})
 			return d, err
 		}
 		r.tdirs[d] = len(r.tdirs) + 1
 		r.log("mkdirtemp", r.label(d, false), "ok")
-		r.evs = append(r.evs, ev{"mkdirtemp", d, dir, "ok"})
+		r.evs = append(r.evs, ev{"mkdirtemp", d, dir, "ok", nil})
 		return d, nil
 	}
 }
@@ -170,18 +172,18 @@ func (r *rec) createTemp(real func(string, string) (*os.File, error)) func(strin
 	return func(dir, pat string) (*os.File, error) {
 		if r.step() {
 			r.log("createtemp", "T?", "eio")
-			r.evs = append(r.evs, ev{"createtemp", "", dir, "eio"})
+			r.evs = append(r.evs, ev{"createtemp", "", dir, "eio", nil})
 			return nil, eio("open", filepath.Join(dir, pat))
 		}
 		f, err := real(dir, pat)
 		if err != nil {
 			r.log("createtemp", "T?", "nat")
-			r.evs = append(r.evs, ev{"createtemp", "", dir, "nat"})
+			r.evs = append(r.evs, ev{"createtemp", "", dir, "nat", nil})
 			return f, err
 		}
 		r.tfiles[f.Name()] = len(r.tfiles) + 1
 		r.log("createtemp", r.label(f.Name(), true), "ok")
-		r.evs = append(r.evs, ev{"createtemp", f.Name(), dir, "ok"})
+		r.evs = append(r.evs, ev{"createtemp", f.Name(), dir, "ok", nil})
 		return f, nil
 	}
 }
@@ -191,12 +193,12 @@ func (r *rec) rename(real func(string, string) error) func(string, string) error
 		args := r.label(a, true) + "," + r.label(b, true)
 		if r.step() {
 			r.log("rename", args, "eio")
-			r.evs = append(r.evs, ev{"rename", a, b, "eio"})
+			r.evs = append(r.evs, ev{"rename", a, b, "eio", nil})
 			return &os.LinkError{Op: "rename", Old: a, New: b, Err: syscall.EIO}
 		}
 		err := real(a, b)
 		r.log("rename", args, resOf("rename", err))
-		r.evs = append(r.evs, ev{"rename", a, b, resOf("rename", err)})
+		r.evs = append(r.evs, ev{"rename", a, b, resOf("rename", err), nil})
 		return err
 	}
 }
@@ -225,12 +227,16 @@ func (r *rec) gobOps() font.VerifGobOps {
 				_ = f.Truncate(int64(r.trunc))
 				_, _ = f.Seek(int64(r.trunc), 0)
 				r.log("encode", r.label(p, true), "eio")
-				r.evs = append(r.evs, ev{"encode", p, p, "eio"})
+				part := r.curData
+				if r.trunc < len(part) {
+					part = part[:r.trunc]
+				}
+				r.evs = append(r.evs, ev{"encode", p, p, "eio", part})
 				return eio("write", p)
 			}
 			err := real()
 			r.log("encode", r.label(p, true), resOf("encode", err))
-			r.evs = append(r.evs, ev{"encode", p, p, resOf("encode", err)})
+			r.evs = append(r.evs, ev{"encode", p, p, resOf("encode", err), r.curData})
 			return err
 		},
 		Chmod:   func(f *os.File, m os.FileMode) error { return r.file1("chmod", f.Name(), func() error { return d.Chmod(f, m) }) },
@@ -242,12 +248,12 @@ func (r *rec) gobOps() font.VerifGobOps {
 			if r.step() {
 				_ = d.Close(f)
 				r.log("close", r.label(p, true), "eio")
-				r.evs = append(r.evs, ev{"close", p, p, "eio"})
+				r.evs = append(r.evs, ev{"close", p, p, "eio", nil})
 				return eio("close", p)
 			}
 			err := d.Close(f)
 			r.log("close", r.label(p, true), resOf("close", err))
-			r.evs = append(r.evs, ev{"close", p, p, resOf("close", err)})
+			r.evs = append(r.evs, ev{"close", p, p, resOf("close", err), nil})
 			return err
 		},
 		Rename: r.rename(d.Rename),
